@@ -30,7 +30,7 @@ from lv import core, model, gen, ref, canon, drive
 from lv.props import common
 
 ID = 'C17'
-BUDGET = {'quick': 16 * 24, 'thorough': 16 * 260}        # state machines (histories)
+BUDGET = {'quick': 704, 'thorough': 16 * 260}        # state machines (histories)
 WALL = {'quick': 900, 'thorough': 5400}
 RULE = ('one case = one history: a fresh SQLite database file attached with '
         '@AttachDatabase (alias logica_home; alias logica_test = the default SQLite dataset '
